@@ -150,6 +150,11 @@ pub fn script_log_block_time() -> Vec<u8> {
     ])
 }
 
+/// A script that never returns: it burns its whole gas limit and panics with OutOfGas.
+pub fn script_burn_all_gas() -> Vec<u8> {
+    bytes(vec![op::ji(0)])
+}
+
 /// A trivial predicate that evaluates to true.
 pub fn predicate_true() -> Vec<u8> {
     bytes(vec![op::ret(RegId::ONE)])
